@@ -300,6 +300,8 @@ class IndexBackend(ArraySchemaBackend):
         error_handler = ErrorHandler(lazy)
 
         if schema.coerce:
+            if not inplace:
+                check_obj = check_obj.copy()
             try:
                 check_obj.index = schema.coerce_dtype(check_obj.index)
             except SchemaError as exc:
@@ -457,6 +459,8 @@ class MultiIndexBackend(DataFrameSchemaBackend):
         :returns: validated DataFrame or Series.
         """
         if schema.coerce:
+            if not inplace:
+                check_obj = check_obj.copy()
             check_obj.index = self.__coerce_index(check_obj, schema, lazy)
 
         # Prevent data type coercion when the validate method is called because
